@@ -149,7 +149,10 @@ func methToSx(m *config.Method) *sx.Node {
 	}
 	sort.Strings(cs)
 	return sx.H("method", commonToSx(&m.Common), fs, sx.Strs("AutoMap", m.AutoMap), em, ts,
-		sx.Strs("RawFieldSettings", m.RawFieldSettings), sx.H("UpdateParam", sx.S(up)), sx.Strs("Contexts", cs))
+		sx.Strs("RawFieldSettings", m.RawFieldSettings), sx.H("UpdateParam", sx.S(up)), sx.Strs("Contexts", cs),
+		// functions need the package loader, which this (hook) path does not have: lines naming one are errors on both sides;
+		// the attachment itself is compared on the real path by the C06 function-attachment campaign
+		sx.H("Functions"), sx.H("Constructor", sx.S("")))
 }
 
 // sortModelMethod sorts the map-like parts of a model (method ...) answer by key.
